@@ -3,3 +3,12 @@ import LdkModel.Props.C09
 #print axioms Ldk.C09.step_next_other
 #print axioms Ldk.C09.ids_from
 #print axioms Ldk.C09.update_ids_gap_free
+#print axioms Ldk.C09.in_flight_characterised
+#print axioms Ldk.C09.lastWith_is_last
+#print axioms Ldk.C09.no_release_while_in_flight
+#print axioms Ldk.C09.no_release_while_in_flight_raa
+#print axioms Ldk.C09.release_needs_commitment
+#print axioms Ldk.C09.done_only_in_flight
+#print axioms Ldk.C09.any_completion_order
+#print axioms Ldk.C09.any_completion_order_fields
+#print axioms Ldk.C09.release_independent_of_completion_order
